@@ -272,9 +272,63 @@ def run(model: RepoModel, rep, tier: str):
     # the state-level merge hands out a fresh set (shared with C06.R2)
     from .c06 import check_merge_fresh
     check_merge_fresh(model, rep, "C09.R2", "collect_in_state_bits", "@returned", "out_state_bits")
+    # what is saved under a context is the summary just generated for it (not merged with an earlier one of another call path)
+    key = "core/global_semantics.py::the saved summary instance is the one just generated"
+    ok_ctx = None
+    for fn_ in gs.all_funcs():
+        gens = [n for n in walk_no_nested(fn_.node) if isinstance(n, ast.Assign) and isinstance(n.targets[0], ast.Name) and isinstance(n.value, ast.Call)
+                and isinstance(n.value.func, ast.Attribute) and n.value.func.attr == "generate_and_save_analysis_summary"]
+        saves = [c for c in walk_no_nested(fn_.node) if isinstance(c, ast.Call) and isinstance(c.func, ast.Attribute)
+                 and c.func.attr == "save_method_summary_instance" and len(c.args) > 1 and isinstance(c.args[1], ast.Name)]
+        for g_ in gens:
+            S = g_.targets[0].id
+            for sv in saves:
+                if sv.args[1].id != S or sv.lineno < g_.lineno:
+                    continue
+                touched = []
+                for n in walk_no_nested(fn_.node):
+                    if not (g_.lineno < getattr(n, "lineno", 0) < sv.lineno):
+                        continue
+                    if isinstance(n, ast.Call) and n.args and isinstance(n.args[0], ast.Attribute) and isinstance(n.args[0].value, ast.Name) \
+                            and n.args[0].value.id == S and (call_name(n) or "").split(".")[-1] in ("add_to_dict_with_default_set", "update", "extend"):
+                        touched.append(n)
+                    if isinstance(n, ast.Call) and isinstance(n.func, ast.Attribute) and n.func.attr in ("update", "add", "extend", "append") \
+                            and any(isinstance(x, ast.Name) and x.id == S for x in ast.walk(n.func.value)):
+                        touched.append(n)
+                    if isinstance(n, (ast.Assign, ast.AugAssign)):
+                        for t in (n.targets if isinstance(n, ast.Assign) else [n.target]):
+                            if isinstance(t, (ast.Subscript, ast.Attribute)) and any(isinstance(x, ast.Name) and x.id == S for x in ast.walk(t)):
+                                touched.append(n)
+                ok_ctx = (not touched, touched[0] if touched else sv)
+    if ok_ctx is None:
+        rep.unknown("C09.R3", key, gs.rel, 0, "generation and saving of the summary instance not recognised")
+    elif ok_ctx[0]:
+        rep.holds("C09.R3", key, gs.rel, ok_ctx[1].lineno, "summary = generate_and_save_analysis_summary(...); saved unmodified under the context id")
+    else:
+        rep.violation("C09.R3", key, gs.rel, ok_ctx[1].lineno,
+                      f"between its generation and save_method_summary_instance the new summary is modified (`{norm(ok_ctx[1])[:90]}`): merging what "
+                      f"an earlier analysis left under the same context id mixes the values of different call paths -- a value passed at one "
+                      f"call site of a wrapper shows up in the result of the other")
+    from ..generic import check_accumulators
+    check_accumulators(model, rep, "C09.R5", [SS, "core/global_stmt_states.py"], C09_ADJ,
+                       "values that reach this statement on some path are missing from the computed set (the result is not the union over the "
+                       "operand combinations / paths)", 20, widening=_c09_widening)
     # union over paths / over argument states: shared with C08.R4
     from .c08 import check_accumulating_loops
     check_accumulating_loops(model, rep, "C09.R4")
+
+
+def _c09_widening(x, guards, pre, fnode=None):
+    from .c08 import is_widened
+    return fnode is not None and is_widened(fnode, guards, pre)
+
+
+def _c09_adj():
+    from .c08 import C08_ADJUDICATED
+    return {k: v for k, v in C08_ADJUDICATED.items() if k.startswith("core/stmt_states.py::") or k.startswith("core/global_stmt_states.py::")}
+
+
+C09_ADJ = _c09_adj()
 
 
 # ---------------------------------------------------------------- self-test mutants
@@ -283,6 +337,10 @@ def _t(old, new, count=1):
 
 
 MUTANTS = [
+    ("second-operand-generator-exhausted", SS,
+     _t("        new_states = set()\n        for operand_state_index in operand_states:\n            operand_state = self.frame.symbol_state_space[operand_state_index]\n            if not isinstance(operand_state, State):\n                continue\n            if operand_state.state_type != STATE_TYPE_KIND.REGULAR:\n                continue\n            for operand2_state_index in operand2_states:\n                operand2_state = self.frame.symbol_state_space[operand2_state_index]",
+        "        new_states = set()\n        operand2_iter = (i for i in operand2_states)\n        for operand_state_index in operand_states:\n            operand_state = self.frame.symbol_state_space[operand_state_index]\n            if not isinstance(operand_state, State):\n                continue\n            if operand_state.state_type != STATE_TYPE_KIND.REGULAR:\n                continue\n            for operand2_state_index in operand2_iter:\n                operand2_state = self.frame.symbol_state_space[operand2_state_index]"),
+     "one-shot iterator consumed inside a loop"),
     ("field-write-in-place", SS, _t("                new_receiver_state.fields[each_field_state.value] = source_states", "                receiver_state.fields[each_field_state.value] = source_states"),
      "field_write_stmt_state"),
     ("array-write-no-copy", SS, _t("                new_array_state_index = self.create_copy_of_state_and_add_space(status, stmt_id, each_array_state_index, stmt)\n                new_array_state: State = self.frame.symbol_state_space[new_array_state_index]\n\n                self.make_state_tangping(new_array_state)",
